@@ -89,6 +89,39 @@ func atomicFieldLoad(v ssa.Value, f *types.Var) bool {
 	return ok && atomicOp(c, f, "Load")
 }
 
+// loadOrHandedIn: v is an atomic load of field f, or a parameter that receives such a load (made for the call) at every
+// call site of its function in the package.
+func loadOrHandedIn(cx *Ctx, v ssa.Value, f *types.Var, pkg string) bool {
+	if atomicFieldLoad(v, f) {
+		return true
+	}
+	p, ok := v.(*ssa.Parameter)
+	if !ok || p.Parent() == nil {
+		return false
+	}
+	fn := p.Parent()
+	idx := -1
+	for i, q := range fn.Params {
+		if q == p {
+			idx = i
+		}
+	}
+	sites, all := 0, true
+	for _, g := range cx.P.FuncsOfPkg(pkg) {
+		allInstrs(g, func(in ssa.Instruction) {
+			if !isCallTo(in, fn) {
+				return
+			}
+			sites++
+			cc := callCommon(in)
+			if idx < 0 || idx >= len(cc.Args) || !atomicFieldLoad(cc.Args[idx], f) {
+				all = false
+			}
+		})
+	}
+	return sites > 0 && all
+}
+
 func ruleC16Reserve(cx *Ctx) {
 	const rule = "C16.reserve"
 	cx.R.Rule(rule, 2, "TryPush: the element store is dominated by the successful CAS(producerIndex, p, p+2) and uses p, the mask and the buffer read before that CAS; the resize bit is tested first; true is returned only after the element was handed over")
@@ -367,7 +400,7 @@ func ruleC16Full(cx *Ctx) {
 	allInstrs(slow, func(in ssa.Instruction) {
 		if isCallTo(in, avail) {
 			a := callArgs(in)
-			if len(a) == 2 && atomicFieldLoad(a[1], ci) {
+			if len(a) == 2 && loadOrHandedIn(cx, a[1], ci, queuePkg) {
 				if _, isP := a[0].(*ssa.Parameter); isP {
 					okAvail = true
 				}
